@@ -146,6 +146,86 @@ def support_cases(tier):
     return cases
 
 
+# ---------------------------------------------------------------------------
+# a field of a NON-random sub-object that has a block of its own: the block is not imposed in the call,
+# so it must not narrow what the parent's fields may take
+# ---------------------------------------------------------------------------
+
+def subobj_case(job):
+    from mc.common import vsc, SRandState, explore
+    rel, xv, depth = job
+    viol = []
+    cnt = {"executions": 0, "transitions": 0, "states": 0, "nontrivial": 1}
+
+    @vsc.randobj
+    class Inner(object):
+        def __init__(self):
+            self.x = vsc.rand_bit_t(3)
+
+        @vsc.constraint
+        def cx(self):
+            self.x < 2
+
+    @vsc.randobj
+    class Mid(object):
+        def __init__(self):
+            self.i = vsc.rand_attr(Inner())
+
+    @vsc.randobj
+    class Top(object):
+        def __init__(self):
+            self.a = vsc.rand_bit_t(3)
+            self.s = vsc.attr(Inner()) if depth == 1 else vsc.attr(Mid())
+
+        @vsc.constraint
+        def ca(self):
+            x = self.s.x if depth == 1 else self.s.i.x
+            if rel == '<':
+                self.a < x
+            elif rel == '<=':
+                self.a <= x
+            elif rel == '>':
+                self.a > x
+            else:
+                self.a != x
+
+    def run(s):
+        o = Top()
+        if depth == 1:
+            o.s.x = xv
+        else:
+            o.s.i.x = xv
+        o.set_randstate(SRandState(s))
+        out = common.outcome(o.randomize)
+        return out[0], int(o.a), int(o.s.x if depth == 1 else o.s.i.x)
+    import operator
+    f = {'<': operator.lt, '<=': operator.le, '>': operator.gt, '!=': operator.ne}[rel]
+    exp = set(a for a in range(8) if f(a, xv))
+    got = set()
+    st = {}
+    for x in explore(run, bound=None, cap=3000, state=st):
+        cnt["executions"] += 1
+        cnt["transitions"] += len(x.trace) + 1
+        kind, a, xr = x.obs
+        if kind == "ok":
+            got.add(a)
+        elif exp:
+            viol.append({"subcheck": "starved", "case": {"subobj": list(job), "choices": x.choices}, "observed": kind, "expected": sorted(exp),
+                         "what": "a %s s.x with s non-random and s.x=%d: call ended with %r although %r are feasible" % (rel, xv, kind, sorted(exp))})
+            break
+    cnt["states"] = len(got)
+    if not viol and not st.get("capped") and exp - got:
+        viol.append({"subcheck": "starved", "case": {"subobj": list(job), "choices": None}, "observed": sorted(got), "expected": sorted(exp),
+                     "what": "a %s x where x=%d is a field of a non-random sub-object (depth %d) whose own block says x < 2: feasible "
+                             "value(s) %r of a are produced by no answer sequence of the complete tree (reached %r)" % (
+                                 rel, xv, depth, sorted(exp - got), sorted(got))})
+    return {"cnt": cnt, "viol": viol}
+
+
+def subobj_jobs(tier):
+    return [(rel, xv, d) for rel in ('<', '<=', '>', '!=') for xv in (0, 1, 3, 6, 7) for d in (1, 2)]
+
+
 def run(res, only=None):
     tier = res.tier
     parts = []
@@ -172,6 +252,19 @@ def run(res, only=None):
                     continue
                 v["finding"] = classify(v)
                 res.violation(v)
+    if only in (None, 'subobj'):
+        sj = subobj_jobs(tier)
+        for j, r in common.good(sj, common.pmap(subobj_case, sj, chunk=1), res):
+            cnt = r["cnt"]
+            res.add("traces_validated_against_impl", cnt["executions"])
+            res.add("transitions", cnt["transitions"])
+            res.add("states", cnt["states"])
+            res.add("evaluations", cnt["executions"])
+            nontriv += 1
+            res.subcount("subobject", "programs")
+            for v in r["viol"]:
+                v["finding"] = classify(v)
+                res.violation(v)
     res.cov["distinct_nontrivial"] = nontriv
     res.cov["rule"] = ("one case = one program with all values of its non-random field and a menu of previous values of "
                        "the random fields; non-trivial if the reference solution set is neither empty nor full")
@@ -186,6 +279,9 @@ def run(res, only=None):
 
 def replay(rec):
     c = rec["case"]
+    if c.get("subobj"):
+        r = subobj_case(tuple(c["subobj"]))
+        return (not r["viol"]), (r["viol"][0]["what"] if r["viol"] else "every feasible value is produced")
     pr = _detuple(c["prog"])
     sub = rec["subcheck"]
     orc = ('c14b',) if sub != 'starved' else ('c14b', 'c14s')
